@@ -301,11 +301,117 @@ class Program:
             self._ref_sigs = json.load(open(p)) if os.path.exists(p) else {}
         return self._ref_sigs
 
+    def _reference_shapes(self):
+        if not hasattr(self, "_ref_shapes"):
+            import json
+            p = os.path.join(os.path.dirname(os.path.abspath(__file__)), "known_shapes.json")
+            self._ref_shapes = json.load(open(p)) if os.path.exists(p) else {}
+        return self._ref_shapes
+
+    def match_renamed(self, res):
+        """Stand-ins for reference helpers that are missing under their name: a function that did not exist on the reference
+        tree, takes the same parameters (as a set) and sits at the same place of the call graph.  Conservative: a changed
+        parameter set is never matched (rules read parameters by name), and the best candidate must be clearly best."""
+        ref = self._reference_shapes()
+        self.renamed = getattr(self, "renamed", {})
+        missing = [q for q in ref if q not in self.functions and q.rsplit(".", 1)[-1].startswith("_")
+                   and not q.rsplit(".", 1)[-1].startswith("__") and ref[q]["kind"] in ("function", "method", "staticmethod")]
+        if not missing:
+            return
+        new = {q: f for q, f in self.functions.items() if q not in ref and f.parent is None and f.kind in ("function", "method", "staticmethod")}
+        callees_of = {}
+        callers_of = {}
+        for q, f in self.functions.items():
+            try:
+                cs = res.calls(f)
+            except Exception:
+                cs = []
+            names = set()
+            for c in cs:
+                t = c.callee.func.qualname if c.callee.func is not None else (c.callee.target or "")
+                if t:
+                    names.add(t)
+                    if c.callee.func is not None:
+                        callers_of.setdefault(t, set()).add(q)
+            callees_of[q] = names
+
+        def closure_callers(q, rivals=()):
+            # callers of q, looking through other new helpers (a helper extracted in between) - but not through a rival
+            # candidate: a function that is only reached through another candidate is that candidate's helper
+            seen, work, out = set(), [q], set()
+            while work:
+                x = work.pop()
+                for c in callers_of.get(x, ()):
+                    if c in seen:
+                        continue
+                    seen.add(c)
+                    if c in rivals:
+                        continue
+                    if c in new:
+                        work.append(c)
+                    out.add(c)
+            return out
+
+        def jac(a, b):
+            a, b = set(a), set(b)
+            return len(a & b) / len(a | b) if (a | b) else 0.0
+
+        def toks(q):
+            return {t for t in q.rsplit(".", 1)[-1].lower().split("_") if t}
+
+        def score_all():
+            pairs = []
+            for mq in missing:
+                if mq in self.renamed:
+                    continue
+                r = ref[mq]
+                cands = []
+                for nq, f in new.items():
+                    if nq in self.renamed.values():
+                        continue
+                    if (f.cls.qualname if f.cls else None) != r["cls"] and r["cls"] is not None:
+                        continue
+                    if (f.cls is None) != (r["cls"] is None):
+                        continue
+                    if set(f.params) != set(r["params"]) or len(f.params) != len(r["params"]):
+                        continue
+                    cands.append(nq)
+                for nq in cands:
+                    f = new[nq]
+                    ref_callers = {self.renamed.get(c, c) for c in r["callers"]}
+                    sc = 0.0
+                    if ref_callers & closure_callers(nq, set(cands) - {nq}):
+                        sc += 3.0
+                    sc += 2.0 * jac({self.renamed.get(c, c) for c in r["callees"]}, callees_of.get(nq, ()))
+                    sc += jac(toks(mq), toks(nq))
+                    if f.params == r["params"]:
+                        sc += 0.5
+                    pairs.append((sc, mq, nq))
+            pairs.sort(reverse=True)
+            return pairs
+
+        # one acceptance per round: an accepted rename changes who counts as a reference caller / callee
+        for _round in range(len(missing) + 1):
+            pairs = score_all()
+            accepted = False
+            for sc, mq, nq in pairs:
+                rivals = [s2 for (s2, m2, n2) in pairs if (m2 == mq) != (n2 == nq)]
+                best_rival = max(rivals) if rivals else 0.0
+                if sc >= 1.0 and sc - best_rival >= 0.5:
+                    self.renamed[mq] = nq
+                    accepted = True
+                    break
+            if not accepted:
+                break
+
     def func(self, qualname: str) -> FuncInfo:
         q = qualname if qualname.startswith(self.pkg_name + ".") else f"{self.pkg_name}.{qualname}"
         fi = self.functions.get(q)
         if fi is not None:
             return fi
+        rn = getattr(self, "renamed", {}).get(q)
+        if rn is not None and rn in self.functions:
+            return self.functions[rn]
         # renamed / moved private helper: a function that did not exist on the reference tree, has exactly the reference
         # parameter list of the missing anchor and is unique with that property stands in for it
         ref = self._reference_signatures()
